@@ -482,6 +482,8 @@ CORPUS = [b'[1e5]', b'[1E+3,2]', b'{"a":1e5}', b'{"a":2E-3,"b":true}', b'[1.5,2]
           b'[true,false,null]', b'["x",1]', b'{"a":"b"}', b'[]', b'{}', b'[ ]', b'[1.0e+10 ]', b'[-0.5e-2,3]', b'{"a":{"b":[1,2.5,{"c":null}]},"d":"e"}',
           b'["\\u00e9\\n",{"k":[]}]', b'{"a\xc3\xb1o":["\xe2\x82\xac"]}', b'{"application/json":"text/plain"}', b'[1,\n 2]\n', b'{"a" : 1 , "b" : [ ] }',
           b'[-0]', b'{"a":-0}', b'[-0.0,-0e1]', b'[1.5 ,2]', b'[1.5\n,2e1\t]',
+          # \u escapes: the four digits are hex digits of either case (RFC 8259 section 7), in values and in keys, surrogate pairs
+          b'["\\u00E9"]', b'["\\u20AC\\uD83D\\uDE00"]', b'{"\\u00C9a":"\\uABCD\\uabcd\\uAbCd\\u0aF9\\uFFFF"}',
           # every two-character escape of RFC 8259, in values and in keys (the solidus one is never written by the encoder), DEL unescaped
           b'["\\/"]', b'{"u":"http:\\/\\/h\\/p"}', b'{"k\\/":true}', b'["\\"\\\\\\b\\f\\n\\r\\t"]', b'["a\x7fb"]',
           # XDL: items separated by new lines only (what the pretty encoder writes)
